@@ -203,6 +203,8 @@ def _texpr(n, env):
         return ('(- %s)' % e, 'Z')
     if isinstance(n, ast.UnaryOp) and isinstance(n.op, ast.Not):
         e, t = _texpr(n.operand, env)
+        if t == 'string':
+            return ('(String.eqb %s "")' % e, 'bool')      # `not s`: the empty string is the only false string
         need(t == 'bool', 'kernel: not on %s' % t)
         return ('(negb %s)' % e, 'bool')
     if isinstance(n, ast.List):
@@ -257,6 +259,11 @@ def _texpr(n, env):
             need(ta == 'bool' and isinstance(rhs, ast.Constant) and isinstance(rhs.value, bool), 'kernel: `is` other than <bool> is True/False: %s' % key[:80])
             r = '(Bool.eqb %s %s)' % (a, 'true' if rhs.value else 'false')
             return (r if isinstance(op, ast.Is) else '(negb %s)' % r, 'bool')
+        if isinstance(op, (ast.In, ast.NotIn)) and isinstance(n.left, ast.Constant) and isinstance(n.left.value, str):
+            b, tb = _texpr(rhs, env)
+            if tb == 'string':      # 'lit' in s : substring test
+                r = '(match index 0 %s %s with Some _ => true | None => false end)' % (cstr(n.left.value), b)
+                return (r if isinstance(op, ast.In) else '(negb %s)' % r, 'bool')
         if isinstance(op, (ast.In, ast.NotIn)):
             a, ta = _texpr(n.left, env)
             ls = _lits(rhs) if isinstance(rhs, (ast.Tuple, ast.List)) else None
@@ -290,6 +297,10 @@ def _texpr(n, env):
             (l, tl), (x, tx) = _texpr(f.value, env), _texpr(n.args[0], env)
             need((tl, tx) in (('list Z', 'Z'), ('list string', 'string')), 'kernel: index on %s' % tl)
             return ('(%s %s %s)' % ('src_zindex' if tx == 'Z' else 'src_sindex', x, l), 'Z')
+        if isinstance(f, ast.Name) and f.id == 'pow' and len(n.args) == 2 and not n.keywords:
+            (a, ta), (b, tb) = _texpr(n.args[0], env), _texpr(n.args[1], env)
+            need(ta == tb == 'Z', 'kernel: pow on %s, %s' % (ta, tb))
+            return ('(Z.pow %s %s)' % (a, b), 'Z')      # for a non-negative exponent (Python yields a float otherwise)
         if isinstance(f, ast.Name) and f.id == 'cast' and len(n.args) == 2 and not n.keywords:
             return _texpr(n.args[1], env)       # typing.cast(T, e) is e
         if isinstance(f, ast.Name) and f.id == 'bool' and len(n.args) == 1 and not n.keywords:
@@ -329,6 +340,31 @@ def _texpr(n, env):
     need(False, 'kernel: expression %s' % ast.dump(n)[:120])
 
 
+class _Subst(ast.NodeTransformer):
+    def __init__(self, name, value):
+        self.name, self.value = name, value
+
+    def visit_Name(self, node):
+        if node.id == self.name and isinstance(node.ctx, ast.Load):
+            return ast.Constant(value=self.value)
+        return node
+
+
+def _subst_const(node, name, value):
+    import copy
+    return ast.fix_missing_locations(_Subst(name, value).visit(copy.deepcopy(node)))
+
+
+def _guard_continue(body):
+    """[..., `if c: continue`, rest...]  ->  [..., `if not c: rest`]"""
+    for k, st in enumerate(body):
+        if isinstance(st, ast.If) and len(st.body) == 1 and isinstance(st.body[0], ast.Continue) and not st.orelse:
+            rest = _guard_continue(body[k + 1:])
+            return body[:k] + ([ast.If(test=ast.UnaryOp(op=ast.Not(), operand=st.test), body=rest, orelse=[])] if rest else [])
+        need(not any(isinstance(x, (ast.Continue, ast.Break)) for x in ast.walk(st)), 'kernel: continue / break in a place other than `if c: continue` at the level of the loop body')
+    return body
+
+
 def _norm_stmts(stmts):
     """x.append(e) -> x += [e];  a = b = e -> b = e; a = b   (recursively through if-blocks)"""
     out = []
@@ -343,6 +379,13 @@ def _norm_stmts(stmts):
                 out.append(ast.Assign(targets=[t], value=ast.Name(id=last.id, ctx=ast.Load())))
         elif isinstance(st, ast.If):
             out.append(ast.If(test=st.test, body=_norm_stmts(st.body), orelse=_norm_stmts(st.orelse)))
+        elif isinstance(st, ast.For) and isinstance(st.target, ast.Name) and isinstance(st.iter, ast.Call) and getattr(st.iter.func, 'id', None) == 'range' and not st.orelse \
+                and all(isinstance(a, ast.Constant) and isinstance(a.value, int) for a in st.iter.args) and 1 <= len(st.iter.args) <= 2:
+            # for i in range(a, b) with constant bounds: unrolled, i replaced by its value; `if c: continue` guards the rest of the body
+            rng_ = range(*[a.value for a in st.iter.args])
+            need(len(rng_) <= 8, 'kernel: range loop of %d iterations' % len(rng_))
+            for i in rng_:
+                out += _norm_stmts(_guard_continue([_subst_const(b, st.target.id, i) for b in st.body]))
         elif isinstance(st, ast.Expr) and isinstance(st.value, ast.Constant) and isinstance(st.value.value, str):
             pass    # docstring / bare string
         else:
@@ -993,6 +1036,47 @@ def main(out_path):
                 labels.append(a0.left.value)
         w('Definition src_policy_error_labels : list string := ' + cstrs(labels) + '.')
     soft('decisions and error labels of Policy.evaluate', ['C06'], ex_policy_decisions)
+
+    def ex_recs():
+        gr = func_node(t_algs, 'get_recommendations')
+        # (a) the fault points of an entry: `adl, faults = len(alg_desc), 0` followed by the loop over range(1, 3)
+        floops = [n for n in ast.walk(gr) if isinstance(n, ast.For) and ast.unparse(n.iter) == 'range(1, 3)']
+        need(len(floops) == 1, 'get_recommendations: fault loop')
+        inits = [n for n in ast.walk(gr) if isinstance(n, ast.Assign) and ast.unparse(n) == 'adl, faults = (len(alg_desc), 0)']
+        need(len(inits) == 1, 'get_recommendations: `adl, faults = len(alg_desc), 0`')
+        w(kernel('src_rec_faults', [('adl', 'Z'), ('fc1', 'Z'), ('fc2', 'Z')], [ast.parse('faults = 0').body[0], floops[0]],
+                 inputs={'len(alg_desc[1])': ('fc1', 'Z'), 'len(alg_desc[2])': ('fc2', 'Z')}, result='faults'))
+        # (b) what is never recommended for addition
+        skips = [n for n in ast.walk(gr) if isinstance(n, ast.If) and 'empty_version' in ast.unparse(n.test) and 'faults > 0' in ast.unparse(n.test)]
+        need(len(skips) == 1 and len(skips[0].body) == 1 and isinstance(skips[0].body[0], ast.Continue), 'get_recommendations: the not-to-be-added test')
+        w(kernel('src_rec_skip_add', [('faults', 'Z'), ('alg_type', 'string'), ('n', 'string'), ('empty_version', 'bool')], [ast.Return(value=skips[0].test)]))
+        # (c) the version filter: the `continue` conditions of the loop over the tokens of the first-appeared string, in order
+        vloops = [n for n in ast.walk(gr) if isinstance(n, ast.For) and ast.unparse(n.iter) == "versions[0].split(',')"]
+        need(len(vloops) == 1, 'get_recommendations: token loop')
+        body = vloops[0].body
+        need(ast.unparse(body[0]) == 'ssh_prefix, ssh_version, is_cli = Algorithm.get_ssh_version(v)' and ast.unparse(body[-1]) == 'break' and ast.unparse(body[-2]) == 'matches = True'
+             and all(isinstance(x, ast.If) and len(x.body) == 1 and isinstance(x.body[0], ast.Continue) and not x.orelse for x in body[1:-2]), 'get_recommendations: token loop shape')
+        ins = {'software is not None': ('has_software', 'bool'), 'software.product': ('product', 'string'), 'software.compare_version(ssh_version)': ('cmp', 'Z')}
+        conds = [x.test for x in body[1:-2]]
+        need(len(conds) == 4, 'get_recommendations: four skip conditions in the token loop: %d' % len(conds))
+        w(kernel('src_rec_token_skipped', [('ssh_prefix', 'string'), ('ssh_version', 'string'), ('is_cli', 'bool'), ('for_server', 'bool'), ('has_software', 'bool'), ('product', 'string'), ('cmp', 'Z')],
+                 [ast.Return(value=ast.BoolOp(op=ast.Or(), values=conds))], inputs=ins))
+        # (d) ssh_audit.get_algorithm_recommendations: level from points, note of a change, category and action order, suppression
+        ga = func_node(t_main, 'get_algorithm_recommendations')
+        lv = [n for n in ast.walk(ga) if isinstance(n, ast.If) and ast.unparse(n.test) == 'points >= 10']
+        need(len(lv) == 1, 'get_algorithm_recommendations: level thresholds')
+        w(kernel('src_rec_level', [('points', 'Z')], [ast.parse("level = 'informational'").body[0], lv[0]], result='level'))
+        need(any(ast.unparse(n) == "level = 'informational'" for n in ast.walk(ga)), "get_algorithm_recommendations: level starts as 'informational'")
+        nt = [n for n in ast.walk(ga) if isinstance(n, ast.If) and ast.unparse(n.test) == "action == 'chg'"]
+        need(len(nt) == 1 and any(ast.unparse(n) == "notes = ''" for n in ast.walk(ga)), 'get_algorithm_recommendations: change note')
+        w(kernel('src_rec_notes', [('action', 'string')], [ast.parse("notes = ''").body[0], nt[0]], result='notes'))
+        orders = {ast.unparse(n.target): lit(n.iter) for n in ast.walk(ga) if isinstance(n, ast.For) and isinstance(n.iter, ast.List)}
+        need(set(orders) == {'alg_type', 'action'}, 'get_algorithm_recommendations: category / action loops: %r' % (orders,))
+        w('Definition src_rec_categories : list string := ' + cstrs(orders['alg_type']) + '. Definition src_rec_actions : list string := ' + cstrs(orders['action']) + '.')
+        sp = [n for n in ast.walk(ga) if isinstance(n, ast.If) and 'algorithm_recommendation_suppress_list' in ast.unparse(n.test)]
+        need(len(sp) == 1 and isinstance(sp[0].body[0], ast.Continue) and ast.unparse(sp[0].test) == 'algorithm_recommendation_suppress_list is not None and name in algorithm_recommendation_suppress_list',
+             'get_algorithm_recommendations: suppression test')
+    soft('recommendation decisions (Algorithms.get_recommendations, get_algorithm_recommendations)', ['C13'], ex_recs)
 
     def ex_ssh_version():
         t_alg = ast.parse(src('algorithm.py'))
